@@ -403,6 +403,18 @@ def build_batch(base_seed, tier):
                           "datemix", "dec"])
         progs.append(make_program(rng, n, sink, tpl, kind, cls))
         n += 1
+    # which file wins when several directories of the module path hold a
+    # module of that name must not depend on anything but the path order
+    for j in range(6 if tier == "quick" else 40):
+        dirs = rng.sample(["/sim/pA", "/sim/pB", "/sim/pC", "/sim/pD",
+                           "/sim/pE", "/sim/pF", "/sim/pG"],
+                          rng.randrange(2, 7))
+        have = rng.sample(dirs, rng.randrange(2, len(dirs) + 1))
+        v = ("require pm; [pm->which, pm->n]")
+        progs.append({"id": n, "sink": "module-path-order", "kind": "set",
+                      "cls": "str", "variants": [v, v, v],
+                      "modpath": dirs, "have": have})
+        n += 1
     return progs, len(names)
 
 
@@ -431,8 +443,19 @@ def run_programs(progs):
         it = None
         try:
             for i, p in enumerate(progs):
-                if it is None or i % 50 == 0:
+                if it is None or i % 50 == 0 or p.get("modpath"):
                     it = Interpreter(True, True)
+                if p.get("modpath"):
+                    from ckl.values import ValueList, ValueString
+                    lst = ValueList()
+                    for d in p["modpath"]:
+                        lst.addItem(ValueString(d))
+                        w.put_dir(d)
+                    for d in p["have"]:
+                        w.put_file(d + "/pm.ckl", "def which = '" + d +
+                                   "';\ndef n = " +
+                                   str(p["have"].index(d)) + ";\n")
+                    it.base_environment.put("checkerlang_module_path", lst)
                 res = []
                 for src in p["variants"]:
                     sim_out = SimOut(w, "o")
@@ -442,12 +465,14 @@ def run_programs(progs):
                     w.trace.clear()
                     env = Environment()
                     clock.begin_op()
+                    v = None
                     try:
                         v = it.interpret(src, "p", env)
                         obs = ("val", _s(v))
                     except CklRuntimeError as e:
                         obs = ("rt", _s(e.value), _s(e.msg), _s(e.pos),
-                               tuple(_s(x) for x in (e.stacktrace or [])))
+                               tuple(_s(x) for x in (e.stacktrace or [])),
+                               _s(e))
                     except CklSyntaxError as e:
                         obs = ("syn", _s(e.msg))
                     except steps.StepBudgetExceeded:
@@ -464,6 +489,12 @@ def run_programs(progs):
                             raw = "|".join(_s(x) for x in cv.value)
                         except Exception:   # noqa: BLE001
                             raw = "?"
+                    echo = None
+                    if p["id"] % 40 == 0 and obs[0] == "val" and \
+                            v is not None:
+                        # what the REPL host would echo for this result
+                        echo = repl_echo(w, src)
+                    obs = obs + (("echo", echo),)
                     d = hashlib.sha256(repr((obs, text)).encode(
                         "utf-8", "backslashreplace")).hexdigest()[:16]
                     res.append([d, hashlib.sha256(raw.encode(
@@ -476,6 +507,34 @@ def run_programs(progs):
     finally:
         shutil.rmtree(root, ignore_errors=True)
     return out
+
+
+def repl_echo(w, src):
+    """run one program through the real REPL loop and return what it
+    prints (the REPL's echo of results is a host-level rendering path)"""
+    from ..replhost import ReplHost, ReplDied
+    from ..session import Sim
+
+    class _S:            # the little of Sim that ReplHost needs
+        pass
+    sim = _S()
+    sim.w = w
+    sim.outs, sim.ins, sim.inst = {}, {}, {}
+    h = ReplHost(sim, "R", True, True, None)
+    try:
+        if not h.start():
+            return "REPL-DID-NOT-START"
+        line = " ".join(src.split("\n"))
+        try:
+            calls, printed = h.send(line)
+            if h.prompts and h.prompts[-1].startswith("+"):
+                c2, p2 = h.send(")")
+                printed = printed + p2
+        except ReplDied as e:
+            return "REPL-DIED " + type(e.exc).__name__
+        return tuple(printed)
+    finally:
+        h.stop()
 
 
 def _s(v):
